@@ -699,3 +699,69 @@ Proof.
   intros o. destruct (run_stops_lemma o) as (s & Hrun & _ & _ & _ & Hsv).
   rewrite Hrun. exact Hsv.
 Qed.
+
+(* ------------------------------------------------------------------------------------ *)
+(* every running actor is stopped exactly once: the stop sequence has no duplicates        *)
+
+Lemma alive_from_NoDup mk (mk_inj : forall i j, mk i = mk j -> i = j) os :
+  forall i, NoDup (alive_from mk i os).
+Proof.
+  induction os as [|o os IH]; intros i; cbn; [constructor|].
+  destruct o; try apply IH; try constructor; try (constructor; fail).
+  - intros Hin. apply alive_from_index in Hin as (j & Heq & Hj). apply mk_inj in Heq. lia.
+  - apply IH.
+  - intros [].
+Qed.
+
+Lemma NoDup_app_disjoint {A} (l1 l2 : list A) :
+  NoDup l1 -> NoDup l2 -> (forall x, In x l1 -> ~ In x l2) -> NoDup (l1 ++ l2).
+Proof.
+  induction l1 as [|a l1 IH]; intros H1 H2 Hd; [assumption|].
+  inversion H1; subst. cbn. constructor.
+  - intros Hin. apply in_app_or in Hin as [Hin|Hin]; [contradiction|].
+    apply (Hd a); [now left|assumption].
+  - apply IH; [assumption|assumption|]. intros x Hx. apply Hd. now right.
+Qed.
+
+Lemma expected_stops_NoDup o : NoDup (expected_stops o).
+Proof.
+  unfold expected_stops.
+  assert (HF : NoDup (frontends_alive o)).
+  { unfold frontends_alive. destruct (core_started o); [|constructor].
+    apply alive_from_NoDup. intros i j H. now injection H. }
+  assert (HB : NoDup (backends_alive o)).
+  { unfold backends_alive. destruct (_ && _); [|constructor].
+    apply alive_from_NoDup. intros i j H. now injection H. }
+  assert (HC : NoDup (core_alive o)).
+  { unfold core_alive. destruct (core_running o); repeat constructor. intros []. }
+  assert (HA : NoDup (audio_alive o)).
+  { unfold audio_alive. destruct (_ && _); repeat constructor. intros []. }
+  assert (HM : NoDup (mixer_alive o)).
+  { unfold mixer_alive. destruct (_ && _); repeat constructor. intros []. }
+  destruct (phases_of_part o) as (PF & PC & PB & PA & PM).
+  assert (Hph : forall (l1 l2 : list cls) p1,
+             (forall x, In x (map phase l1) -> x = p1) ->
+             (forall x, In x (map phase l2) -> p1 < x) ->
+             forall x, In x l1 -> ~ In x l2).
+  { intros l1 l2 p1 H1 H2 x Hx1 Hx2.
+    pose proof (H1 (phase x) (in_map phase _ _ Hx1)).
+    pose proof (H2 (phase x) (in_map phase _ _ Hx2)). lia. }
+  repeat (apply NoDup_app_disjoint; [assumption| |
+    eapply Hph; [eassumption|];
+    intros x Hx; rewrite ?map_app in Hx; repeat (apply in_app_or in Hx as [Hx|Hx]);
+    repeat match goal with
+           | H : forall x, In x ?l -> x = _, H' : In ?z ?l |- _ => rewrite (H z H'); clear H'
+           end; lia]).
+  assumption.
+Qed.
+
+Theorem stopped_exactly_once_lemma :
+  forall o, exists z s,
+      run_command o = (Val z, s) /\ NoDup (stops_of (events s)) /\
+      (forall c, In c (stops_of (events s)) <->
+                 In c (frontends_alive o ++ core_alive o ++ backends_alive o ++ audio_alive o ++ mixer_alive o)).
+Proof.
+  intros o. destruct (run_stops_lemma o) as (s & Hrun & _ & Hst & _ & _).
+  exists (expected_status o), s. split; [assumption|]. rewrite Hst. split; [apply expected_stops_NoDup|].
+  intros c. reflexivity.
+Qed.
